@@ -3,7 +3,7 @@ int g_i;            /* witness index into the 16 address bytes */
 #define DA_BYTE(k) ((quint32)(unsigned char)stream->ba->src[__CPROVER_old(stream->pos) + (k)])
 #define DA_COMPLETE (__CPROVER_old(stream->pos) + (int)a_length <= stream->ba->n)
 /* XOR pad: magic cookie (big endian) followed by the transaction id; bytes beyond the id read as 0 (QByteRef) */
-#define DA_XPAD(i) ((i) < 4 ? ((0x2112A442u >> (8 * (3 - (i)))) & 0xffu) : (((i) - 4 < xorId->n) ? (quint32)(unsigned char)xorId->src[(i) - 4] : 0u))
+#define DA_XPAD(i) ((i) < 4 ? ((0x2112A442u >> (8 * (3 - (i)))) & 0xffu) : (((i) - 4 < xorId->n) ? (quint32)(unsigned char)xorId->src[xorId->off + (i) - 4] : 0u))
 static inline int QDataStream_read_ipv6(QDataStream *s, Q_IPV6ADDR *a, int len) {
   MODEL_LIMIT(len == 16, "readRawData into Q_IPV6ADDR with len != 16"); MODEL_LIMIT(!s->ba->patched && QBA_NOT_OWNED(s->ba), "plain source");
   int av = s->ba->n - s->pos; int k = len < av ? len : av;
